@@ -85,7 +85,10 @@ type c10Backing struct {
 }
 
 type c10Op struct {
-	Op    string  `json:"op"` // get | put | del | select | transfer
+	// get | put | del | select | transfer | bg (a concurrent commit overwrites the LIVE backing key B/K with V: pre-execution
+	// reads the live state while other transactions commit; a key this execution has already read stays at the
+	// version it saw, a key it has not read yet is read at the new version)
+	Op    string  `json:"op"`
 	B     string  `json:"b,omitempty"`
 	K     string  `json:"k,omitempty"`
 	V     string  `json:"v,omitempty"`
@@ -208,6 +211,23 @@ func c10NewMimic(b c10Backing) *c10Mimic {
 	}
 	sort.Slice(m.live, func(i, j int) bool { return m.live[i].raw < m.live[j].raw })
 	return m
+}
+
+// overwrite replaces the value and version of a live key (a commit of another transaction); false = not live.
+func (m *c10Mimic) overwrite(bucket, key, val, tx string) bool {
+	old, ok := m.all[c10BK{bucket, key}]
+	if !ok || string(old.PureData.Value) == sandbox.DelFlag {
+		return false
+	}
+	vd := &ledger.VersionedData{RefTxid: []byte(tx), RefOffset: 0,
+		PureData: &ledger.PureData{Bucket: bucket, Key: []byte(key), Value: []byte(val)}}
+	m.all[c10BK{bucket, key}] = vd
+	for i := range m.live {
+		if m.live[i].raw == bucket+"/"+key {
+			m.live[i].vd = vd
+		}
+	}
+	return true
 }
 
 func (m *c10Mimic) Get(bucket string, key []byte) (*ledger.VersionedData, error) {
@@ -763,6 +783,31 @@ func c10Run(tr c10Trace, excl map[string]bool) (*c10Stats, error) {
 				st.l("del-never-written")
 			}
 		}
+		if op.Op == "bg" {
+			mim, isMimic := reader.(*c10Mimic)
+			if !isMimic || op.B == c10BT || op.V == "" {
+				continue
+			}
+			tx := fmt.Sprintf("bg%02d", i)
+			if !mim.overwrite(op.B, op.K, op.V, tx) {
+				continue
+			}
+			pinned := false
+			for _, vd := range sb.RWSet().RSet {
+				if vd.PureData.Bucket == op.B && string(vd.PureData.Key) == op.K {
+					pinned = true
+				}
+			}
+			if pinned {
+				st.l("bg-overwrite-of-read-key")
+				st.nontrivial = true
+			} else {
+				// not read yet: the execution will see the new version
+				m.back[bk] = c10Cell{st: 1, val: op.V, tx: tx, off: 0}
+				st.l("bg-overwrite-of-unread-key")
+			}
+			continue
+		}
 		want, plan := m.expect(op)
 		res := c10Exec(sb, op, tr.Backing.Initiator)
 		ops = append(ops, op)
@@ -1052,6 +1097,8 @@ func c10GenOp(rt *rapid.T, seq int) c10Op {
 		return c10Op{Op: "put", B: bucket, K: key(), V: v}
 	case kind < 62:
 		return c10Op{Op: "del", B: bucket, K: key()}
+	case kind < 65 && bucket != c10BT:
+		return c10Op{Op: "bg", B: bucket, K: key(), V: fmt.Sprintf("g%d", seq)}
 	case kind < 94:
 		op := c10Op{Op: "select", B: bucket}
 		switch shape := rapid.IntRange(0, 19).Draw(rt, "shape"); {
@@ -1085,7 +1132,7 @@ func c10GenOp(rt *rapid.T, seq int) c10Op {
 
 func TestC10(t *testing.T) {
 	c := hx.NewCollector("C10", "exploration",
-		"rapid sequences (1-25 ops) of Get / Put / Del / Select (nil, empty, prefix, exact, inverted and out-of-universe bounds; exhausted or stopped after 1-3 items with the NewIterator loop) / Transfer on a sandbox.XMCache over a generated XModel-like backing state (6 prefix-related keys x 2 buckets live / deleted-with-version / never-written, transient bucket never stored); every result is compared with an overlay-map model, the flushed read/write set with rules (a) read keys present with the backing version, (b) write set = final values, (c) written non-transient keys are read, and the same calls are replayed on a fresh XMCache over XMReaderFromRWSet(rwset) + NewUTXOReaderFromInput (verifyTxRWSets) demanding identical results and write set. Non-trivial = a Select executed after a Put/Del inside its range, or a replay of a sequence containing a scan with early stop; distinct = hash of the op trace incl. backing descriptor",
+		"rapid sequences (1-25 ops) of Get / Put / Del / concurrent commits overwriting a live backing key (keys already read stay at the version seen) / Select (nil, empty, prefix, exact, inverted and out-of-universe bounds; exhausted or stopped after 1-3 items with the NewIterator loop) / Transfer on a sandbox.XMCache over a generated XModel-like backing state (6 prefix-related keys x 2 buckets live / deleted-with-version / never-written, transient bucket never stored); every result is compared with an overlay-map model, the flushed read/write set with rules (a) read keys present with the backing version, (b) write set = final values, (c) written non-transient keys are read, and the same calls are replayed on a fresh XMCache over XMReaderFromRWSet(rwset) + NewUTXOReaderFromInput (verifyTxRWSets) demanding identical results and write set. Non-trivial = a Select executed after a Put/Del inside its range, or a replay of a sequence containing a scan with early stop; distinct = hash of the op trace incl. backing descriptor",
 		"the backing reader imitates xmodel.XModel (Get of a never-written key = empty VersionedData, deleted = marker with version, Select = live keys only, no error); the ledger-backed XModel itself is not driven (c10RealBacking TODO)",
 		"a nil end key is only evaluated where XModel and MemXModel agree (no live backing key >= start)",
 		"values never equal the delete marker; Transfer only from the initiator with amount >= 0",
